@@ -382,6 +382,7 @@ package v2
 //@   nopanic
 //@   overflow: assumed
 //@   requires[open] fr.file != nil && fr.header != nil
+//@   requires[callback] callback != nil
 //@   modifies filepos(fr.file), ghost("stat_file")
 //@   loop 0 invariant[reader_untouched] fr.file == old(fr.file) && fr.file != nil
 //@   before FileReader.readNextBlock [starts_at_data_offset] calls("FileReader.readNextBlock") == old(calls("FileReader.readNextBlock")) ==> calls("File.Seek") == old(calls("File.Seek")) + 1 && calledwith("File.Seek", 1, ite(old(fr.header.Version) == 3, 64 + old(fr.header.NameLength), 64)) && calledwith("File.Seek", 2, 0)
